@@ -985,6 +985,27 @@ def probes(ctx, rec, lines, pending):
     if R:
         overlap_checks(ctx, A, R, 'probe-F16:image-refcat')
         overlap_checks(ctx, G, R, 'probe-F16:group-refcat')
+    # F22 (fixed c7b17c0): corrector without a bounding box and <= 2 sources: the whole-image footprint
+    # built from the catalog ended half a pixel below the largest coordinate
+    from tweakwcs.tests.helper_correctors import make_mock_jwst_wcs
+    from tweakwcs.correctors import JWSTWCSCorrector
+    for (xs, ys) in (([100.0, 40.0], [30.0, 200.0]), ([100.7, 40.2], [30.1, 200.6]), ([0.0], [0.0]),
+                     ([17.5, 3.0], [7.0, 200.5]), ([float(npr.uniform(0, 900))], [float(npr.uniform(0, 900))])):
+        gw = make_mock_jwst_wcs(v2ref=100, v3ref=-400, roll=20, crpix=[512.0, 512.0],
+                                cd=[[5e-7, 0], [0, 5e-7]], crval=[10.0, 20.0])
+        gw.bounding_box = None
+        gw.array_shape = None
+        gw.pixel_shape = None
+        gc = JWSTWCSCorrector(gw, {'v2_ref': 100, 'v3_ref': -400, 'roll_ref': 20})
+        case = {'op': 'image', 'probe': 'F22', 'x': xs, 'y': ys, 'bounding_box': None}
+        ctx.case(case, nontrivial=True, branch='probe:F22')
+        if gc.bounding_box is not None:
+            ctx.note('probe F22: the mock corrector has a bounding box; probe not applicable')
+            continue
+        wic = WCSImageCatalog(Table([xs, ys], names=('x', 'y')), gc)
+        pra, pdec = gc.det_to_world(np.array(xs), np.array(ys))
+        check_polygon_sources(ctx, case, 'image without bounding box', wic.polygon, np.atleast_1d(pra),
+                              np.atleast_1d(pdec))
     # F17 (open): min_separation loop never tests the pair (0, 1) and tests against the ORIGINAL successor
     from tweakwcs.wcsimage import convex_hull
     pts = [(0.0, 0.0), (0.01, -0.005), (10.0, 5.0), (0.0, 5.0)]
